@@ -133,8 +133,8 @@ func hasClassPrefix(cls []string, p string) bool {
 }
 
 var treeFacet = harness.Register(&harness.Facet[treeCase]{
-	Name: "roundtrip",
-	Rule: "rapid: minijs.GenProgram (full ES5 grammar, depth<=6: all operators, member/call/new chains, object literals with every key form and accessors, arrays with elisions, regexps, numbers in every lexical form, strings as UTF-16 units with an escape form per unit, every statement incl. labels/restricted productions/for-NoIn) + decoration and trivia byte streams; three renderings each parsed and compared node by node with the generating tree and with each other; non-trivial = >=2 nested operators of different precedence, or an ASI/restricted/regexp-vs-division/NoIn site, or a literal with an escape or non-decimal form; distinct by JSON of the case",
+	Name:  "roundtrip",
+	Rule:  "rapid: minijs.GenProgram (full ES5 grammar, depth<=6: all operators, member/call/new chains, object literals with every key form and accessors, arrays with elisions, regexps, numbers in every lexical form, strings as UTF-16 units with an escape form per unit, every statement incl. labels/restricted productions/for-NoIn) + decoration and trivia byte streams; three renderings each parsed and compared node by node with the generating tree and with each other; non-trivial = >=2 nested operators of different precedence, or an ASI/restricted/regexp-vs-division/NoIn site, or a literal with an escape or non-decimal form; distinct by JSON of the case",
 	Quick: 3000, Thorough: 40000,
 	Gen: func(t *rapid.T) treeCase {
 		c := treeCase{Prog: minijs.GenProgram(t, minijs.GenCfg{UnicodeIdent: true})}
@@ -147,7 +147,6 @@ var treeFacet = harness.Register(&harness.Facet[treeCase]{
 
 func TestRoundTrip(t *testing.T) { treeFacet.Run(t) }
 
-
 func m03FromOtto(p *ast.Program) (*minijs.Node, error) { return m03.FromOtto(p) }
 
 // ---- facet: literals -------------------------------------------------------------------------
@@ -155,8 +154,8 @@ func m03FromOtto(p *ast.Program) (*minijs.Node, error) { return m03.FromOtto(p) 
 // number / string / regexp literals and an object literal with literal keys.
 
 var literalFacet = harness.Register(&harness.Facet[treeCase]{
-	Name: "literals",
-	Rule: "rapid: one program `[lit,...]; ({key:lit,...})` with 4-8 literals drawn from minijs' literal generators (numbers: pool of boundary spellings + random decimal/fraction/exponent/hex/legacy-octal forms with <=20 significant digits; strings: 0-6 UTF-16 units from four alphabets each with a random escape form, surrogate pairs raw or escaped, lone surrogates, line continuations with each line terminator; regexps from a pool of lexically awkward bodies) and numeric/string/identifier keys; values compared with the math/big and own-decoder models; non-trivial = some literal is not a plain decimal integer / raw ASCII string; distinct by JSON of the case",
+	Name:  "literals",
+	Rule:  "rapid: one program `[lit,...]; ({key:lit,...})` with 4-8 literals drawn from minijs' literal generators (numbers: pool of boundary spellings + random decimal/fraction/exponent/hex/legacy-octal forms with <=20 significant digits; strings: 0-6 UTF-16 units from four alphabets each with a random escape form, surrogate pairs raw or escaped, lone surrogates, line continuations with each line terminator; regexps from a pool of lexically awkward bodies) and numeric/string/identifier keys; values compared with the math/big and own-decoder models; non-trivial = some literal is not a plain decimal integer / raw ASCII string; distinct by JSON of the case",
 	Quick: 4000, Thorough: 60000,
 	Gen: func(t *rapid.T) treeCase {
 		cfg := minijs.GenCfg{}
